@@ -526,12 +526,12 @@ pub fn run(args: &Args) -> ! {
     exhaustive(&mut ctx, maxlen);
     oneway_upgrade(&mut ctx);
     ctx.bump_sample_cap(4);
-    let (m, s) = ctx.tier.pick((30_000, 1_000), (300_000, 10_000));
+    let (m, s) = ctx.tier.pick((120_000, 3_000), (300_000, 10_000));
     random_server(&mut ctx, m, s);
     ctx.bump_sample_cap(4);
-    let n = ctx.tier.pick(1_500, 30_000);
+    let n = ctx.tier.pick(6_000, 30_000);
     client_histories(&mut ctx, n);
-    let n = ctx.tier.pick(3_000, 60_000);
+    let n = ctx.tier.pick(12_000, 60_000);
     sent_on_return(&mut ctx, n);
     ctx.exhaustive = Some(false);
     ctx.finish()
